@@ -53,6 +53,23 @@ def declare_problem(P, objective, weights=None):
         # the weights as declared by the user (not read back from the objects)
         objs[0]._declared_weight = P.v("w1") if w1 == "sym" else w1
         objs[1]._declared_weight = P.v("w2") if w2 == "sym" else w2
+    elif objective == "weighted_builtin_late":
+        # built-in objectives take no weight argument: the public field is assigned after creation
+        objs.append(ps.ObjectiveMinimizeMakespan())
+        objs.append(ps.ObjectiveMinimizeFlowtime())
+        w1, w2 = weights
+        objs[0].weight = P.term("w1", ph=5, lo=0, hi=6) if w1 == "sym" else w1
+        objs[1].weight = P.term("w2", ph=2, lo=0, hi=6) if w2 == "sym" else w2
+        objs[0]._declared_weight = P.v("w1") if w1 == "sym" else w1
+        objs[1]._declared_weight = P.v("w2") if w2 == "sym" else w2
+    elif objective in ("weighted_bounded_first", "weighted_bounded_last"):
+        # one component carries declared bounds, the other none: the bounds say nothing about the sum
+        bounded = ps.IndicatorFromMathExpression(name="sa", expression=a.s, bounds=(P.int("b_lo", ph=0), P.int("b_hi", ph=3)))
+        free = ps.IndicatorFromMathExpression(name="sb", expression=b.s)
+        order = [bounded, free] if objective == "weighted_bounded_first" else [free, bounded]
+        for ind in order:
+            objs.append(ps.ObjectiveMaximizeIndicator(target=ind, weight=1))
+            objs[-1]._declared_weight = 1
     return pb, a, b, objs
 
 
@@ -252,7 +269,14 @@ def ob_optimum_claims(ctx, path):
         if t2 is None:
             return {"status": "unknown", "note": "objective target not in the base stack"}
         better = t2 < m_last if kind == "minimize" else t2 > m_last
-        v, m = _decide(path, ctx, copy + [better, t2 >= formula.to_z3(bounds[0]), t2 <= formula.to_z3(bounds[1])])
+        # the user's promise: the bounds declared on the indicators the user declared hold for every schedule
+        promised = []
+        for o in ctx.objs:
+            if o._bounds is not None:
+                tcopy = mp.get(o._target.decl().name())
+                if tcopy is not None:
+                    promised += [tcopy >= formula.to_z3(o._bounds[0]), tcopy <= formula.to_z3(o._bounds[1])]
+        v, m = _decide(path, ctx, copy + [better] + promised)
         return _result(v, m, f"stopped claiming the optimum at {m_last}, but the bound of the {kind} direction is {want}", ctx)
     return {"status": "unsat", "queries": 0}
 
@@ -307,6 +331,12 @@ def shapes(tier):
             out.append(trace_shape(wobj, {"optimizer": "optimize", "optimize_priority": "weight"}, weights=weights, max_checks=2))
         for prio in ("lex", "box", "pareto"):
             out.append(trace_shape(wobj, {"optimizer": "optimize", "optimize_priority": prio}, weights=(1, 1), max_checks=2))
+    for weights in [("sym", "sym"), (5, 2), (0, 3)]:
+        out.append(trace_shape("weighted_builtin_late", {}, weights=weights, max_checks=4))
+        out.append(trace_shape("weighted_builtin_late", {"optimizer": "optimize", "optimize_priority": "weight"}, weights=weights, max_checks=2))
+    for wobj in ("weighted_bounded_first", "weighted_bounded_last"):
+        out.append(trace_shape(wobj, {}, max_checks=K))
+        out.append(trace_shape(wobj, {"max_iter": 2}, max_checks=K))
     for sh in out:
         pass
     return out
@@ -436,12 +466,8 @@ def replay_trace(desc):
             print("CONFIRMED: a model was found but solve() reported no solution")
             return 1
         return 0
-    if len(objs2) > 1:
-        val = sum(o._declared_weight * result.indicators[o.target.name] for o in objs2)
-    elif hasattr(objs2[0].target, "name") and objs2[0].target.name in result.indicators:
-        val = result.indicators[objs2[0].target.name]
-    else:
-        val = result.horizon
+    # the declared objective evaluated on the very model the returned solution was built from
+    val = solver._model.eval(spec_target, model_completion=True).as_long()
     better = spec_target < val if declared == "minimize" else spec_target > val
     chk.push()
     chk.add(better)
